@@ -475,7 +475,9 @@ impl CanonicalizeContextPatterns {
 		let block_3_5digit_pattern = get_number_pattern_regex(block_separator_pref, decimal_separator_pref, 3, 5);
 		// Note: on en.wikipedia.org/wiki/Decimal_separator, show '3.14159 26535 89793 23846'
 		let block_4digit_hex_pattern =  Regex::new(r"^[0-9a-fA-F]{4}([ \u00A0\u202F][0-9a-fA-F]{4})*$").unwrap();
-		let block_1digit_pattern =  Regex::new(r"^((\d(\uFFFF\d)?)(\d([, \u00A0\u202F]\d){2})*)?([\.](\d(\uFFFF\d)*)?)?$").unwrap();
+		// single digits: the separators are those of the locale, as in the block patterns above
+		let block_1digit_pattern =  Regex::new(&format!(r"^((\d(\uFFFF\d)?)(\d([{}]\d){{2}})*)?([{}](\d(\uFFFF\d)*)?)?$",
+							regex::escape(block_separator_pref), regex::escape(decimal_separator_pref))).unwrap();
 
 		return CanonicalizeContextPatterns {
 			block_separator,
